@@ -256,6 +256,17 @@ class Engine:
             r = c.getattr_default(it, obj, name, default, node)
             if r is not None:
                 return r
+        if isinstance(name, str):
+            # getattr(o, "name", d) is `o.name` with AttributeError (only) answered by d
+            try:
+                return it.get_attr(obj, name, node)
+            except PyRaise as pr:
+                cid = it.st.class_id_of(pr.val)
+                if cid is not None and it.ct.name(cid) == "AttributeError":
+                    return default
+                raise
+            except Unsupported:
+                pass
         raise Unsupported(f"getattr(..., {name!r}, default)")
 
     def setattr_(self, it, obj, name, val, node):
